@@ -12,7 +12,7 @@ faulthandler.register(signal.SIGUSR1, all_threads=True)
 import joblib  # noqa: E402
 from joblib import Parallel, delayed  # noqa: E402
 
-from vlib.c04_tasks import Boom, task  # noqa: E402
+from vlib.c04_tasks import Boom, init_worker, tagged_task  # noqa: E402
 
 
 def children():
@@ -33,15 +33,25 @@ def children():
 def main():
     cfg = json.load(open(sys.argv[1]))
     kw = dict(n_jobs=cfg["J"], backend=cfg["backend"], batch_size=cfg["b"], pre_dispatch=cfg["pd"], return_as=cfg["ra"])
+    if cfg["backend"] in ("loky", "multiprocessing"):
+        # options given to Parallel itself must still be in force after a failed call re-created the workers
+        kw.update(initializer=init_worker, initargs=("W",))
     p = Parallel(**kw)
     calls = []
     base = {}
+
+    class RaisingIterable:
+        def __init__(self, exc):
+            self.exc = exc
+
+        def __iter__(self):
+            raise self.exc
 
     def gen(tag, c):
         for i in range(c["n"]):
             if c["kind"] == "iter" and i == c["iter_fail_at"]:
                 raise Boom("iter", tag, i)
-            yield delayed(task)(i, tag, c["kind"] == "task" and i in c["fail_at"], 0.002 if i % 3 == 0 else 0)
+            yield delayed(tagged_task)(i, tag, c["kind"] == "task" and i in c["fail_at"], 0.002 if i % 3 == 0 else 0)
 
     def run():
         for k, c in enumerate(cfg["history"]):
@@ -50,7 +60,7 @@ def main():
             try:
                 with warnings.catch_warnings():
                     warnings.simplefilter("ignore")
-                    o["out"] = list(p(gen(tag, c)))
+                    o["out"] = list(p(RaisingIterable(Boom("iter", tag, -1)) if c["kind"] == "iterinit" else gen(tag, c)))
             except BaseException as e:  # noqa
                 o["exc_type"] = type(e).__name__
                 o["exc_args"] = list(e.args) if isinstance(e, Boom) else [str(e)[:200]]
